@@ -1510,14 +1510,14 @@ def correspondence(ctx):
     def q(quick, thorough):
         """per-base counts: by tier only (the number of bases carries the harness's budget boost)"""
         return quick if ctx.quick() else thorough
-    cases = corpus + gen_cases(ctx, "all", ctx.budget(10, 80), ctx.budget(7, 24), q(12, 30),
-                               q(12, 40), exhaustive_bases=ctx.budget(0, 2), exhaustive_pairs=300,
-                               n_multiref=ctx.budget(18, 100), n_multi=ctx.budget(12, 60),
+    cases = corpus + gen_cases(ctx, "all", ctx.budget(10, 80), ctx.budget(7, 12), q(12, 24),
+                               q(12, 24), exhaustive_bases=ctx.budget(0, 1), exhaustive_pairs=200,
+                               n_multiref=ctx.budget(18, 80), n_multi=ctx.budget(12, 60),
                                n_sweep=ctx.budget(3, 12), sweep_size=ctx.budget(24, 40))
     descs, impls = [], []
     dist = {"labels": {}, "injections": {}, "impl_errors": {}, "messages": {}, "guards": {}}
     gpairs = []
-    gfiles = ctx.budget(20, 300)        # files whose objects also go through the compiled guards
+    gfiles = ctx.budget(20, 200)        # files whose objects also go through the compiled guards
     for ci, (label, recipe, injs) in enumerate(cases):
         desc, impl, _ = run_case(ctx, recipe, gpairs if ci % 2 == 0 and ci < 2 * gfiles else None, dist["guards"])
         descs.append(["validate", desc])
@@ -1558,7 +1558,7 @@ def correspondence(ctx):
                     "injections at the first / an inner / the last reference) + sampled single and pairwise injections "
                     "per base + multi-reference cases (a subset of 2-4 references inconsistent in one rule) + one "
                     "inconsistency kind at a subset of its sites + unit sweeps (24-40 tags per file, convertible / "
-                    "unconvertible / non-SI unit pairs) (thorough: all singles and 300 sampled pairs on 2 bases); each "
+                    "unconvertible / non-SI unit pairs) (thorough: all singles and 200 sampled pairs on one base); each "
                     "case is a real HDF5 file; model(description) and validate()['errors'] compared exactly (objects, "
                     "order, messages with arguments, or the exception class). non-trivial = at least one error "
                     "reported or an exception; distinct by canonical result. On every second file the conditions of "
@@ -1712,9 +1712,9 @@ def oracle(ctx, broken, hints):
                            n_multiref=ctx.budget(40, 400), n_multi=ctx.budget(20, 200),
                            n_sweep=ctx.budget(5, 40), sweep_size=ctx.budget(30, 40))
     else:
-        cases += gen_cases(ctx, "property", ctx.budget(5, 30), ctx.budget(5, 16), q(8, 25),
-                           q(8, 30), exhaustive_bases=ctx.budget(0, 1), exhaustive_pairs=300,
-                           n_multiref=ctx.budget(16, 100), n_multi=ctx.budget(8, 60),
+        cases += gen_cases(ctx, "property", ctx.budget(5, 30), ctx.budget(5, 8), q(8, 25),
+                           q(8, 30), exhaustive_bases=ctx.budget(0, 1), exhaustive_pairs=150,
+                           n_multiref=ctx.budget(16, 70), n_multi=ctx.budget(8, 40),
                            n_sweep=ctx.budget(3, 12), sweep_size=ctx.budget(24, 40), each_kind=not ctx.quick())
     failures = []
     seen = set()
